@@ -55,6 +55,21 @@ def leaves_and_eval(expr, env, leaf_key):
         if op == "|":
             return la | lb, (lambda a: fa(a) | fb(a))
         return la | lb, (lambda a: fa(a) ^ fb(a))
+    if k == "ConditionalOperator" and "$cond" in env:
+        # `c ? a : b` on a path that recorded which way `c` went (the CFG splits the operator into a branch): the value is
+        # the value of the arm taken
+        c = n.child(0)
+        ids = {c.id, c.strip().id, c.strip_all_casts().id}
+        x = c.strip_all_casts()
+        while x.k == "ParenExpr":
+            x = x.child(0).strip_all_casts()
+            ids.add(x.id)
+        pol = None
+        for i in ids:
+            if i in env["$cond"]:
+                pol = env["$cond"][i]
+        if pol is not None:
+            return leaves_and_eval(n.child(1) if pol else n.child(2), env, leaf_key)
     if k == "UnaryOperator" and n.get("op") == "~":
         la, fa = leaves_and_eval(n.child(0), env, leaf_key)
         return la, (lambda a: ~fa(a) & MASK)
